@@ -2,6 +2,7 @@ import Tahoe.Immutable.FetchLemmasC03
 import Tahoe.Immutable.SegLemmas
 import Tahoe.Immutable.SysLemmas
 import Tahoe.Immutable.FetchLemmasC46
+import Tahoe.Immutable.FinderLemmas
 /-! C03 — immutable availability with k good shares (property theorems over the SegmentFetcher
 event system `Tahoe.Fetch`; helper lemmas in `Tahoe/Immutable/FetchLemmas*.lean`).
 
@@ -18,7 +19,7 @@ interleaving.
 |---|---|
 | ≥ k shares with distinct share numbers intact on answering servers ⇒ the segment fetch succeeds | `enough_good_shares_succeed` (fetcher event system, all fair histories) |
 | … whatever happens to the other shares / servers: missing, corrupted, erroring, disconnecting mid-read | same theorem: `Fair` lets every non-good share answer CORRUPT / DEAD / BADSEGNUM at any time, any placement (several shares per server), any interleaving; *that share.py / finder.py turn those faults into exactly these events* is the assumption `Fair` — monitor only (end-to-end fault schedules) |
-| … or answering late | `Fair` allows OVERDUE before the terminal event of any share (theorem); late DYHB answers / finder overdue timers: monitor only (ShareFinder not modelled) |
+| … or answering late | `Fair` allows OVERDUE before the terminal event of any share (theorem); late DYHB answers / finder overdue timers: `finder_answers_every_hungry` (ShareFinder model `Tahoe.Finder`: overdue promotion, bounded parallelism, answers in any order); that the node forwards the finder's calls to the fetcher: node model + correspondence |
 | the read (not just one segment fetch) succeeds, whatever the reader's segment-size guess | read layer: `genuine_segment_is_accepted` (a genuine answer is accepted and makes progress), `C46.bad_segnum_retry` (a wrong guess costs one retry with the real size), `C46.read_writes_exact_range` (success ⇒ exactly the requested range was written); node layer: `C46.no_stuck_state`.  composed system: `composed_read_delivers_exact_range`, `C46.every_read_terminates`; success (not just termination) inside the composed system: `read_succeeds_partial` below |
 | a share announced while no fetcher runs (late get_buckets answer after a read, between segments, during a pause) is available to every later fetcher (seeded C03-e) | `got_shares_always_recorded`, `new_fetcher_starts_with_known_live_shares` (node model; `Sys` forwards `gotShares` to it); end-to-end: late-dyhb corpus + family (monitor) |
 | < k distinct good shares reachable ⇒ the read fails with a not-enough-shares error | `too_few_fail` (fetcher: `fetch_failed(NotEnoughShares | NoShares)`); node layer retires the requests with that Failure (`C46.no_stuck_state` + correspondence); Segmentation passes it to the read's errback (`C46.bad_segnum_retry`, second part) |
@@ -26,7 +27,8 @@ interleaving.
 | quantifier: all placements on up to N+3 servers, all subsets of failed shares, failures before/during/after block fetches, all response orders and overdue firings | theorems quantify over all event lists satisfying `Fair` (no bound); server-level faults reach the model only as share events — monitor only for the mapping |
 
 Remaining assumptions: `Fair` (FetchEnv.lean) — the finder announces every share once and then says
-`no_more_shares` (finder.py, not modelled: bounded parallelism, overdue promotion, its 10 s timers);
+`no_more_shares` (finder.py: now modelled and proved separately, `finder_answers_every_hungry` /
+`finder_asks_each_server_once`; not yet composed with `Sys` in one transition system);
 every share whose `get_block` was called sends exactly one terminal event, COMPLETE iff it is intact
 on an answering server (share.py, not modelled; since /repo 4f1ea1b a dead share answers DEAD, since
 b6b8db9 a wrong guess no longer kills good shares — both found by the monitors of this check);
@@ -204,6 +206,40 @@ theorem new_fetcher_starts_with_known_live_shares (n : Node) (sh : Share) (seg r
 example : (nstep (initNode 2 3 []) (.gotShares [⟨7, 1, 2, 0⟩])).known = [⟨7, 1, 2, 0⟩] ∧
     ((nstep (nstep (initNode 2 3 []) (.gotShares [⟨7, 1, 2, 0⟩])) (.getSegment 1 9)).active.map (·.f.shares))
       = some [⟨7, 1, 2, 0⟩] := by decide
+
+
+/-! ### ShareFinder (`Tahoe.Finder`, finder.py) -/
+
+/-- **C03 / C46, the finder's half of the contract.**  For every history of a ShareFinder (any order
+of `hungry()` calls, queued loop turns, answers with or without shares, failures, overdue timers,
+`stop`): whenever it is still running and hungry, has no loop queued and no query in flight — every
+server call has returned or failed — it has announced `no_more_shares` since it last became hungry,
+and by then it has asked every server.  (So every `want_more_shares` of a fetcher is answered by
+`got_shares` — which clears `_hungry` — or by `no_more_shares`: the assumption behind `Fair` /
+`NQuiescent`.  Seeded C03-a and C46-a each broke exactly this.) -/
+theorem finder_answers_every_hungry (mx : Nat) (servers : List Nat) (hmx : 0 < mx) (es : List Finder.FEv) :
+    let s := Finder.run { maxOutstanding := mx, servers := servers } es
+    s.running = true → s.hungry = true → s.loops = 0 → s.pending = [] → s.told = true ∧ s.servers = [] := by
+  intro s hr hh hl hp
+  have hi := Finder.finv_run es _ (Finder.finv_init mx servers hmx)
+  have ht := hi.answered hr hh hl hp
+  exact ⟨ht, hi.toldAll ht⟩
+
+/-- Every server is asked at most once, in the order of the permuted list: the servers asked so far
+followed by the ones not yet asked are the list the finder was given. -/
+theorem finder_asks_each_server_once (mx : Nat) (servers : List Nat) (hmx : 0 < mx) (es : List Finder.FEv) :
+    Finder.sendsOf (Finder.run { maxOutstanding := mx, servers := servers } es).out ++
+      (Finder.run { maxOutstanding := mx, servers := servers } es).servers = servers :=
+  (Finder.finv_run es _ (Finder.finv_init mx servers hmx)).sent
+
+/-- three servers, two queries at a time: one answers late (overdue timer), one fails, one has no shares -/
+example :
+    let s := Finder.run { maxOutstanding := 2, servers := [4, 7, 9] }
+      [.hungry, .turn, .turn, .turn, .overdue 0, .turn, .turn, .error 1, .turn, .response 2 [], .turn, .response 0 [], .turn]
+    s.hungry = true ∧ s.loops = 0 ∧ s.pending = [] ∧ s.told = true ∧ Finder.sendsOf s.out = [4, 7, 9] := by decide
+
+/-- `max_outstanding_requests = 0` is excluded: the finder then never asks anybody and never says so -/
+example : (Finder.run { maxOutstanding := 0, servers := [4] } [.hungry, .turn]).told = false := by decide
 
 /-! ### concrete instances (the hypotheses are satisfiable, the conclusions are the expected ones) -/
 
